@@ -54,7 +54,10 @@ MkParams(par) ==
 MkContent(par) ==
   LET ck == par[2]  nest == par[3]  tryfail == par[4] = "tryfail"
       \* a yield with content that fails inside a try in the block: the caller's content is still the one rendered after it
-      failing == IF tryfail THEN <<TryS("bt", <<YieldC("yf", "bfail", <<>>, NoE, <<T("INNER")>>)>>)>> ELSE <<>>
+      failing == IF tryfail THEN <<TryS("bt", <<YieldC("yf", "bfail", <<>>, NoE, <<T("INNER")>>)>>)>>
+                 \* the same failure, below an exec whose failure isset swallows
+                 ELSE IF par[4] = "issetfail" THEN <<IsSetExec("bi", "boom")>> ELSE <<>>
+      boom == Tm("boom", "", <<"lib">>, <<T("bm0"), YieldC("yf2", "bfail", <<>>, NoE, <<T("INNER2")>>), T("bm1")>>)
       \* inside the block (the caller's content is the active one): a yield with an EMPTY content section, and a
       \* definition site whose default content is empty - {{yield content}} in there renders nothing
       empties == IF par[4] = "emptyinner" THEN <<YieldC("ye", "bempty", <<>>, NoE, <<>>)>>
@@ -70,7 +73,7 @@ MkContent(par) ==
                 [] ck = "none"    -> YieldS("yc", "bc", <<>>, NoE)
                 [] ck = "defsite" -> blk
       main == <<LetS("ls", "s", Lit("s0")), T("pre"), y, P("zs", Var("s")), T("post")>>
-  IN [ts |-> <<Tm("leaf", "", <<"lib">>, main), Tm("lib", "", <<>>, (IF ck = "defsite" THEN <<>> ELSE <<blk>>) \o <<bfail, bempty>>)>>,
+  IN [ts |-> <<Tm("leaf", "", <<"lib">>, main), Tm("lib", "", <<>>, (IF ck = "defsite" THEN <<>> ELSE <<blk>>) \o <<bfail, bempty>>), boom>>,
       globals |-> NoVarsMap, runs |-> <<RunR("leaf", NoVarsMap, "D")>>,
       tag |-> "content|" \o ck \o (IF nest THEN "|nest" ELSE "") \o (IF par[4] # "" THEN "|" \o par[4] ELSE "")]
 
@@ -114,10 +117,10 @@ AllParams == ({"tree"} \X (0..2) \X (0..2) \X (SUBSET FileSet) \X {{}, {"leaf"},
       \cup ({"params"} \X Perms({"a", "b", "c"}) \X {"import", "extends"})
       \cup ({"shared"} \X {"ab", "ba"} \X BOOLEAN)
       \cup ({"alias"} \X (1..4))
-      \cup ({"content"} \X {"caller", "none", "defsite"} \X BOOLEAN \X {"", "tryfail", "emptyinner", "emptydef"})
+      \cup ({"content"} \X {"caller", "none", "defsite"} \X BOOLEAN \X {"", "tryfail", "emptyinner", "emptydef", "issetfail"})
 cParams == IF "tree" \in Families THEN AllParams
            ELSE (IF "params" \in Families THEN {"params"} \X Perms({"a", "b", "c"}) \X {"import", "extends"} ELSE {})
                 \cup (IF "shared" \in Families THEN {"shared"} \X {"ab", "ba"} \X BOOLEAN ELSE {})
                 \cup (IF "alias" \in Families THEN {"alias"} \X (1..4) ELSE {})
-                \cup (IF "content" \in Families THEN {"content"} \X {"caller", "none", "defsite"} \X BOOLEAN \X {"", "tryfail", "emptyinner", "emptydef"} ELSE {})
+                \cup (IF "content" \in Families THEN {"content"} \X {"caller", "none", "defsite"} \X BOOLEAN \X {"", "tryfail", "emptyinner", "emptydef", "issetfail"} ELSE {})
 =============================================================================
